@@ -283,3 +283,30 @@ Definition in_range (t : instant) : Prop :=
   range_lo <= fst t < range_hi /\ 0 <= snd t < 10 ^ 9.
 (* an instant is expressible with k fractional digits *)
 Definition has_precision (k : nat) (t : instant) : Prop := snd t mod 10 ^ (9 - Z.of_nat k) = 0.
+
+(* ---------- batches and overlapping requests ----------
+   The handlers keep no state between events or requests that a timestamp may depend on (each
+   event's time string is COPIED out of the pooled JSON parser's buffer, each msgpack time is
+   decoded to a value): a batch, and any set of requests however their handling interleaves, is
+   forwarded pointwise.  The correspondence checks exactly this on overlapping requests. *)
+Inductive creq :=
+| CEpoch (k : nat) (t : instant)
+| CRfc (k : nat) (off : Z) (zulu : bool) (t : instant)
+| CMsgp (fmt : N) (t : instant).
+
+Definition creq_instant (r : creq) : instant :=
+  match r with CEpoch _ t | CRfc _ _ _ t | CMsgp _ t => t end.
+Definition creq_input (r : creq) : tinput :=
+  match r with
+  | CEpoch k t => InText (render_epoch k t)
+  | CRfc k off zulu t => InText (render_rfc k off zulu t)
+  | CMsgp f t => InMsgp (client_mts f t)
+  end.
+Definition creq_ok (r : creq) : Prop :=
+  in_range (creq_instant r) /\
+  match r with
+  | CEpoch k t => (k <= 9)%nat /\ has_precision k t
+  | CRfc k off _ t => (k <= 9)%nat /\ -1440 < off < 1440 /\ has_precision k t
+  | CMsgp f t => (f = 32%N -> snd t = 0 /\ fst t < 2 ^ 32) /\ (f = 64%N -> fst t < 2 ^ 34)
+  end.
+Definition forward_batch (c : ts_cfg) (l : list tinput) : list (option instant) := map (received c) l.
